@@ -2,19 +2,20 @@
 Model: Model/Num.v + Model/Tx.v (through Run/DC06.v); the property's own predicate is evaluated on the literal TEXT with
 exact rationals, independently of the model."""
 import json
+import math
 import re
 from fractions import Fraction
 
 import findings
 from gen import pyref, txgen, txprobe
-from gen.util import short
+from gen.util import lookalike_variants, short
 
 DRIVERS = ['C06']
 NEEDS = dict(cli=True, harness=True, shim=False, release=False)
 RULE = ("for every numeric field of every transaction kind: the integers {0,1,0x7f,0x80,0xff,0x100,2^53-1,2^53,2^64-1,2^64,2^255,"
         "2^256-1,random} in every spelling that can express them (JSON integer, integral float forms, decimal string, 0x hex "
         "lower/upper/zero-padded), malformed spellings (negative number/float/string, fraction, exponent beyond exactness, "
-        "2^64 literal, 2^256, empty, 0x, bad digits, spaces, underscores, bool, null, array, object), may-zone spellings "
+        "the doubles adjacent to powers of two and to random integers, 2^64 literal, 2^256, empty, 0x, bad digits, spaces, underscores, bool, null, array, object), may-zone spellings "
         "(0b, 0o, +); float literals that are not exactly representable (known finding K1); byte fields (odd length, no prefix, "
         "upper case, non-hex), addresses of 19/20/21 bytes, storage keys of 31/32/33 bytes; a case is distinct by its document")
 TRUSTED = ["C13: serde_json tokenisation is outside the model (DESIGN 4.4): the model receives serde_json's own parse of the document; "
@@ -72,6 +73,9 @@ K1 = ["1.00000000000000001", "4503599627370497.5", "9007199254740991.0", "0.9999
       "12345678901234567.0e-1", "9007199254740990.9999", "245099948978826.000e0", "100000000000000000000e-20"]
 
 
+ADJ_POW = list(range(0, 53))
+
+
 def exact_of_token(tok):
     """exact rational value of a JSON number literal, or the integer a string denotes under the stated grammar; None if not a number."""
     if re.fullmatch(r"-?(0|[1-9]\d*)(\.\d+)?([eE][+-]?\d+)?", tok):
@@ -111,12 +115,27 @@ def run(ctx):
                     continue  # an absent/null legacy chain id simply means "no chain id" (C11 covers the guard)
                 docs.append(render(base_doc(kind), f, tok))
                 meta.append((kind, f, tok, ("reject",), "malformed"))
+            for t_ in lookalike_variants("0x1f", rng, count=2) + lookalike_variants("42", rng, count=2):
+                docs.append(render(base_doc(kind), f, json.dumps(t_, ensure_ascii=False)))
+                meta.append((kind, f, json.dumps(t_, ensure_ascii=False), ("reject",), "number-low-byte-look-alike"))
             for tok, v in MAY:
                 docs.append(render(base_doc(kind), f, tok))
                 meta.append((kind, f, tok, ("may", v), "may-zone"))
             for tok in (K1 if f in ("nonce", "value", "chainId") or thorough else K1[:3]):
                 docs.append(render(base_doc(kind), f, tok))
                 meta.append((kind, f, tok, ("k1",), "inexact-float-literal"))
+            # the doubles immediately below and above an integer (shortest spelling, read exactly by any correct parser): fractional
+            for k in ADJ_POW if f in ("nonce", "value", "gas") or thorough else ADJ_POW[::7]:
+                for x in (math.nextafter(float(1 << k), 0.0), math.nextafter(float(1 << k), math.inf)):
+                    if x != int(x):
+                        docs.append(render(base_doc(kind), f, repr(x)))
+                        meta.append((kind, f, repr(x), ("reject",), "float-adjacent-to-power-of-two"))
+            for _ in range(3 if not thorough else 12):
+                n = rng.randrange(1, 1 << rng.randrange(1, 52))
+                x = math.nextafter(float(n), rng.choice([0.0, math.inf]))
+                if x != int(x):
+                    docs.append(render(base_doc(kind), f, repr(x)))
+                    meta.append((kind, f, repr(x), ("reject",), "float-adjacent-to-integer"))
             # required field missing
             d = base_doc(kind)
             if not (kind == 0 and f == "chainId"):
@@ -229,6 +248,25 @@ def run(ctx):
                 al = '[["0x%s",[]]]' % ("3" * nd)
                 docs.append(render(base_doc(kind), "accessList", al))
                 meta.append((kind, "accessList", al, None, "access-list-address-digit-count"))
+    # non-ASCII characters whose code point is a hex digit modulo 256 (İ for 0, Ł for A, Cyrillic а for 0, ...) in byte fields,
+    # addresses, storage keys: not hexadecimal, whatever the length in characters
+    for kind in range(3):
+        for body in ("0a", "00ff00", "".join(rng.choice("0123456789abcdef") for _ in range(40))):
+            for t_ in lookalike_variants("0x" + body, rng, count=3):
+                docs.append(render(base_doc(kind), "data", json.dumps(t_, ensure_ascii=rng.random() < 0.5)))
+                meta.append((kind, "data", t_, None, "bytes-low-byte-look-alike"))
+        for t_ in lookalike_variants("0x" + "1a" * 20, rng, count=3):
+            docs.append(render(base_doc(kind), "to", json.dumps(t_, ensure_ascii=False)))
+            meta.append((kind, "to", t_, None, "address-low-byte-look-alike"))
+        if kind:
+            for t_ in lookalike_variants("0x" + "0a" * 32, rng, count=4):
+                al = '[["0x%s",[%s]]]' % ("33" * 20, json.dumps(t_, ensure_ascii=False))
+                docs.append(render(base_doc(kind), "accessList", al))
+                meta.append((kind, "accessList", al, None, "storage-key-low-byte-look-alike"))
+            for t_ in lookalike_variants("0x" + "3b" * 20, rng, count=2):
+                al = '[[%s,[]]]' % json.dumps(t_, ensure_ascii=False)
+                docs.append(render(base_doc(kind), "accessList", al))
+                meta.append((kind, "accessList", al, None, "access-list-address-low-byte-look-alike"))
     probes = txprobe.run_docs(ctx, docs, "C13bytes", clause="bytes-vs-model", classes=[m[4] for m in meta])
     for (kind, f, tok, want, how), p in zip(meta, probes):
         case = dict(op="transaction field", kind=kind, field=f, token=short(tok, 120), document=short(p.doc, 240))
